@@ -10,6 +10,7 @@ import (
 	"reflect"
 	"strings"
 
+	"verif/harness/abci"
 	"verif/harness/hx"
 
 	"github.com/KiraCore/sekai/x/gov"
@@ -297,6 +298,33 @@ func main() {
 		p := hx.Try(func() { err = gov.InitGenesis(c, k, *gs) })
 		ok := p == "" && err == nil
 		emit(fmt.Sprintf("CGen 0 %s %s", patchCoq(cfgs[0], nw), hx.B(ok)), jcase{Kind: "genesis", OK: ok, Err: p, Mutated: how})
+	}
+
+	// genesis import through the REAL application path (InitChain -> module manager -> gov
+	// AppModule.InitGenesis): either the chain refuses to start, or the stored record is the given one
+	doGenApp := func(nw *govtypes.NetworkProperties, how string) {
+		var after *govtypes.NetworkProperties
+		p := hx.Try(func() {
+			c := abci.NewChain(abci.Config{Accounts: 2, Validators: 1, Seed: seed, Gov: func(g *govtypes.GenesisState) { g.NetworkProperties = clone(nw) }})
+			after = c.App.CustomGovKeeper.GetNetworkProperties(c.Ctx())
+		})
+		ok := p == ""
+		if after == nil {
+			after = clone(cfgs[0])
+		}
+		emit(fmt.Sprintf("CGenApp 0 %s %s %s", patchCoq(cfgs[0], nw), hx.B(ok), patchCoq(cfgs[0], after)), jcase{Kind: "genesis_app", OK: ok, Err: p, Mutated: how})
+	}
+	for i := 0; i < 10; i++ {
+		nw, how := mutate(r, cfgs[0], 40)
+		doGenApp(nw, how)
+	}
+	{
+		bad := clone(cfgs[0])
+		bad.MinTxFee, bad.MaxTxFee = 5, 1
+		doGenApp(bad, "MinTxFee>MaxTxFee")
+		bad2 := clone(cfgs[0])
+		bad2.UniqueIdentityKeys = "username"
+		doGenApp(bad2, "no moniker")
 	}
 
 	// ---- systematic sweep: every identifier (plus two out of range) x value corpus, default config
